@@ -11,7 +11,7 @@ Everything below is about the model instantiated with the facts regenerated from
   of the property for every shape), `C35_single_dir` + corner-case witnesses;
 * step order: `C35_no_trusted_leftover`, `C35_success_verified`, `C35_main` / `C35_property` (over all histories of
   builds with any definitions, arbitrary cache contents — poisoned, stale, evicted — and removals from plz-out);
-* the two failures found on the pinned tree are FIXED in /repo (2c4e62b, 9c3fe2b); their witnesses stay as theorems about the
+* the two failures found on the pinned tree are FIXED in /repo (2c4e62b, 477defb); their witnesses stay as theorems about the
   old fact values (`C35_witness_filegroup_unchanged`, `C35_witness_checkers_change`), the repaired paths are covered by
   `C35_filegroup_verified` and `C35_key_covers_checkers` + `C35_property`; recorded caveats `C35_corner_*`.
 -/
@@ -269,7 +269,7 @@ theorem C35_main (check : K → Option C → C → Bool) (hlaw : StaleSound chec
   | built => exact buildTarget_success check hlaw cacheOn key fresh st (Or.inr hr)
 
 /-- Obligation behind the per-key configuration of `C35_property`: a change of `build.hashcheckers` changes the stamp and
-    cache key of every target that declares hashes (since fix 9c3fe2b they are written into its rule hash). -/
+    cache key of every target that declares hashes (since fix 477defb they are written into its rule hash). -/
 theorem C35_key_covers_checkers : keyCoversCheckers = true := by decide
 
 /-- The property, end to end in the model: with the check being the decision model above and the key determining the
@@ -390,7 +390,7 @@ theorem C35_witness_filegroup_unchanged :
     (buildFilegroup genS check 1 'a' (some 'a')) = (none, .failed) := by decide
 
 open Toy in
-/-- FIXED finding hashcheckers-change-not-reverified (9c3fe2b), kept as a theorem conditional on the OLD fact value: a tree where `build.hashcheckers` reaches neither the rule hash nor the
+/-- FIXED finding hashcheckers-change-not-reverified (477defb), kept as a theorem conditional on the OLD fact value: a tree where `build.hashcheckers` reaches neither the rule hash nor the
     config hash (`keyCoversCheckers = false`): the key does not change when it is edited.  Declared = sha1 digest, built
     with checkers [sha1, sha256]; then hashcheckers = [sha256]: the target is skipped as up to date although a clean
     build with this configuration fails verification. -/
